@@ -236,6 +236,82 @@ def exhaustive():
         b.thr('R'); b.thr('R')
         cases.append(('ovCM_' + name, b.users, b.steps, 'overlap-commit'))
 
+    # ---- RC: the user's ActiveUser record is REPLACED while an upload round that will answer TERMINATE for it is
+    # held inside Manager.UploadStatus (last session closed and the same UID connected again - still admitted, the
+    # credit has not been deducted yet; or the user was between connections when the batch was built).  The code as
+    # it is looks the UID up again when it acts on the verdict, so the NEW record is terminated.  Property text (C16):
+    # once that round is processed the user has no open session; (C17) and none the panel cannot reach.
+    def rc_case(name, users, script):
+        b = Build(users)
+        script(b)
+        b.drain()
+        b.thr('R'); b.thr('R')
+        cases.append(('ovRC_' + name, b.users, b.steps, 'overlap-reconnect'))
+
+    UP90 = '1:12:90:1000000:100000'
+    DOWN150 = '1:12:1000000:150:100000'
+    EXP100 = '1:12:1000000:1000000:100'
+
+    def reconnect(sid2, users=UP90, traffic='T0.100.7', extra=None):
+        def script(b):
+            b.dispatch(1, 1); b.env(traffic)
+            h = b.thr('Ru', parks=1)
+            b.close(0)
+            b.dispatch(1, sid2)
+            if extra:
+                extra(b)
+            b.rel(h)
+        return users, script
+    for name, (users, script) in (
+            ('same_sid', reconnect(1)), ('other_sid', reconnect(2)),
+            ('down_credit', reconnect(2, DOWN150, 'T0.10.200')),
+            ('expired', reconnect(2, EXP100, 'T0.10.3', lambda b: b.env('K200'))),
+            ('deleted', reconnect(2, AMPLE, 'T0.10.3', lambda b: b.env('Ad1'))),
+            ('zeroed', reconnect(2, AMPLE, 'T0.10.3', lambda b: b.env('Aw1.u0'))),
+            ('traffic_on_new', reconnect(2, UP90, 'T0.100.7', lambda b: b.env('T1.30.0'))),
+            ('twice', reconnect(2, UP90, 'T0.100.7', lambda b: (b.close(1), b.dispatch(1, 3))))):
+        rc_case(name, users, script)
+
+    def reconnect_only(b):
+        b.dispatch(1, 1); b.env('T0.100.7'); b.close(0)     # between connections, usage pending in the queue
+        h = b.thr('Mu', parks=1)
+        b.dispatch(1, 2)
+        b.rel(h)
+    rc_case('reconnect_only', UP90, reconnect_only)
+
+    def no_replacement(b):
+        b.dispatch(1, 1); b.env('T0.100.7')
+        h = b.thr('Ru', parks=1)
+        b.dispatch(1, 2)                                      # one more session in the SAME record
+        b.rel(h)
+    rc_case('no_replacement', UP90, no_replacement)
+
+    def two_sessions(b):
+        b.dispatch(1, 1); b.dispatch(1, 2); b.env('T0.60.7'); b.env('T1.60.0')
+        h = b.thr('Ru', parks=1)
+        b.close(0); b.close(1); b.dispatch(1, 3); b.dispatch(1, 4)
+        b.rel(h)
+    rc_case('two_sessions', UP90, two_sessions)
+    for name, users in (('two_users_one_exhausted', '1:12:90:1000000:100000,2:12:1000000:1000000:100000'),
+                        ('two_users_both_exhausted', '1:12:90:1000000:100000,2:12:90:1000000:100000')):
+        def two_users(b):
+            b.dispatch(1, 1); b.dispatch(2, 1); b.env('T0.100.7'); b.env('T1.100.7')
+            h = b.thr('Ru', parks=1)
+            b.close(0); b.dispatch(1, 2)
+            if 'both' in name:
+                b.close(1); b.dispatch(2, 2)
+            b.rel(h)
+        rc_case(name, users, two_users)
+    for order in ((0, 1), (1, 0)):
+        def two_rounds(b):
+            b.dispatch(1, 1); b.env('T0.100.7')
+            h = [b.thr('Ru', parks=1)]
+            b.close(0); b.dispatch(1, 2); b.env('T1.20.0')
+            h.append(b.thr('Ru', parks=1))                    # its batch names the NEW record
+            for i in order:
+                b.rel(h[i])
+        rc_case('two_rounds_%d%d' % order, UP90, two_rounds)
+
     new_user = lambda b, kb: b.dispatch(2 if (2, 1) not in b.live else 3 if (3, 1) not in b.live else 2, 7 if (2, 1) in b.live and (3, 1) in b.live else 1, 'h')
     term_bypass = lambda b, kb: b.close(kb)
     cm_case('newuser', [1], 1, new_user)
@@ -391,11 +467,75 @@ def gen_random(rng, nblocks):
     return b.users, b.steps
 
 
+def gen_random_cutoff(rng):
+    """seeded: upload rounds held inside UploadStatus whose verdict may be TERMINATE (small credits, near expiry,
+    deletions), with the user's sessions closing / the user connecting again / traffic / admin changes meanwhile.
+    The held round keeps no lock and everything else runs one call at a time, so any such sequence is deterministic."""
+    nu = rng.choice([1, 2, 2])
+    recs = []
+    for u in range(1, nu + 1):
+        f = rng.choice(['up', 'down', 'exp', 'ample'])
+        recs.append('%d:12:%d:%d:%d' % (u, rng.choice([40, 90, 300]) if f == 'up' else 1000000,
+                                        rng.choice([150, 400]) if f == 'down' else 1000000, 60 if f == 'exp' else 100000))
+    b = Build(','.join(recs))
+    uids = list(range(1, nu + 1))
+    nextsid = {u: 1 for u in uids}
+
+    def connect(u=None):
+        u = u or rng.choice(uids)
+        sd = nextsid[u] if rng.random() < 0.8 else rng.randrange(1, nextsid[u] + 1)
+        nextsid[u] = max(nextsid[u], sd + 1)
+        b.dispatch(u, sd)
+
+    def traffic():
+        if b.nses:
+            b.env('T%d.%d.%d' % (rng.randrange(b.nses), rng.choice([0, 10, 60, 100, 350]), rng.choice([0, 0, 3, 120])))
+    for u in uids:
+        connect(u)
+    for _ in range(rng.randrange(1, 4)):
+        traffic()
+    for _ in range(rng.choice([1, 1, 2])):
+        held = [b.thr(rng.choice(['Ru', 'Ru', 'Mu']), parks=1)]
+        for _ in range(rng.randrange(1, 7)):
+            y = rng.choice('CCCDDDTTUKAXH')
+            if y == 'C' and b.live:
+                u = rng.choice(uids)
+                ks = b.live_of(u) or sorted(b.live.values())
+                for k in (ks if rng.random() < 0.6 else ks[:1]):     # often: all sessions of one user (its record goes)
+                    b.close(k)
+            elif y == 'D':
+                connect()
+            elif y == 'T':
+                traffic()
+            elif y == 'U':
+                b.thr('U')
+            elif y == 'K':
+                b.env('K%d' % rng.choice([1, 30, 100]))
+            elif y == 'A':
+                b.env('Aw%d.%s' % (rng.choice(uids), rng.choice(['u0', 'd0', 'u1000000.d1000000', 'e5'])))
+            elif y == 'X':
+                b.env('Ad%d' % rng.choice(uids))
+            elif y == 'H' and len(held) < 2:
+                traffic()
+                held.append(b.thr('Ru', parks=1))
+        rng.shuffle(held)
+        for t in held:
+            b.rel(t)
+        for _ in range(rng.randrange(0, 3)):
+            rng.choice([connect, traffic])()
+    b.drain()
+    b.thr('R'); b.thr('R')
+    return b.users, b.steps
+
+
 def cases(rng, nrandom):
     cs = exhaustive()
     for i in range(nrandom):
         users, steps = gen_random(rng, rng.choice([1, 2, 2, 3, 4]))
         cs.append(('ovr%d' % i, users, steps, 'overlap-random'))
+    for i in range(max(10, nrandom // 3)):
+        users, steps = gen_random_cutoff(rng)
+        cs.append(('ovc%d' % i, users, steps, 'overlap-cutoff'))
     return cs
 
 
